@@ -30,6 +30,16 @@ var (
 // errClosed is returned by a MemTopics that has been closed.
 var errClosed = fmt.Errorf("memtopics: provider is closed")
 
+// errSysTopic is returned for topics and filters that begin with '$'.
+var errSysTopic = fmt.Errorf("memtopics: Cannot publish to $ topics")
+
+// sysTopic reports whether the topic begins with '$'. Only there the character
+// is special ([MQTT-4.7.2-1]); the tree functions see the levels one by one and
+// cannot tell the first from the others.
+func sysTopic(topic []byte) bool {
+	return len(topic) > 0 && topic[0] == '$'
+}
+
 // MemTopics provides topics in memory.
 type MemTopics struct {
 	// Sub/unsub mutex
@@ -72,6 +82,10 @@ func (mt *MemTopics) Subscribe(topic []byte, qos byte, sub interface{}) (byte, e
 		return message.QosFailure, fmt.Errorf("Topic filter cannot be empty")
 	}
 
+	if sysTopic(topic) {
+		return message.QosFailure, errSysTopic
+	}
+
 	mt.smu.Lock()
 	defer mt.smu.Unlock()
 
@@ -92,6 +106,10 @@ func (mt *MemTopics) Subscribe(topic []byte, qos byte, sub interface{}) (byte, e
 
 // Unsubscribe implements Provider.
 func (mt *MemTopics) Unsubscribe(topic []byte, sub interface{}) error {
+	if sysTopic(topic) {
+		return errSysTopic
+	}
+
 	mt.smu.Lock()
 	defer mt.smu.Unlock()
 
@@ -106,6 +124,10 @@ func (mt *MemTopics) Unsubscribe(topic []byte, sub interface{}) error {
 func (mt *MemTopics) Subscribers(topic []byte, qos byte, subs *[]interface{}, qoss *[]byte) error {
 	if !message.ValidQos(qos) {
 		return fmt.Errorf("Invalid QoS %d", qos)
+	}
+
+	if sysTopic(topic) {
+		return errSysTopic
 	}
 
 	mt.smu.RLock()
@@ -123,6 +145,10 @@ func (mt *MemTopics) Subscribers(topic []byte, qos byte, subs *[]interface{}, qo
 
 // Retain implements Provider.
 func (mt *MemTopics) Retain(msg *message.PublishMessage) error {
+	if sysTopic(msg.Topic()) {
+		return errSysTopic
+	}
+
 	mt.rmu.Lock()
 	defer mt.rmu.Unlock()
 
@@ -142,6 +168,10 @@ func (mt *MemTopics) Retain(msg *message.PublishMessage) error {
 
 // Retained implements Provider.
 func (mt *MemTopics) Retained(topic []byte, msgs *[]*message.PublishMessage) error {
+	if sysTopic(topic) {
+		return errSysTopic
+	}
+
 	mt.rmu.RLock()
 	defer mt.rmu.RUnlock()
 
@@ -517,8 +547,10 @@ func nextTopicLevel(topic []byte) ([]byte, []byte, error) {
 			s = stateSWC
 
 		case '$':
-			if i == 0 {
-				return nil, nil, fmt.Errorf("memtopics/nextTopicLevel: Cannot publish to $ topics")
+			// An ordinary character here; a topic that begins with it is
+			// refused by the MemTopics methods.
+			if s == stateMWC || s == stateSWC {
+				return nil, nil, fmt.Errorf("memtopics/nextTopicLevel: Wildcard characters '#' and '+' must occupy entire topic level")
 			}
 
 			s = stateSYS
